@@ -280,7 +280,11 @@ def make_session(rng, version, fws, extra_nodes=()):
                 ops.append(("L", f"{p};255;4;0;2;{pack_words(t, v, i)}\n"))
             expect.extend([None] * (len(ops) - len(expect)))
     for t, v, img, nids in fws:
-        ops.append(("U", list(nids), t, v, bytes(img)))
+        # the update call may also name ids nobody has presented (not yet installed, a typo), anywhere in the list
+        call_ids = list(nids)
+        for _ in range(rng.choice([0, 0, 1, 2])):
+            call_ids.insert(rng.randrange(len(call_ids) + 1), next(k for k in range(100, 150) if k not in used))
+        ops.append(("U", call_ids, t, v, bytes(img)))
         expect.append(None)
     by_key = {(t, v): img for t, v, img, _ in fws}
     streams = []
